@@ -2,8 +2,10 @@ package emitter
 
 import (
 	"fmt"
+	"strings"
 	"testing"
 
+	"github.com/huderlem/poryscript/lexer"
 	"github.com/huderlem/poryscript/parser"
 )
 
@@ -28,4 +30,41 @@ func TestVerifWitness_D3(t *testing.T) {
 // D1: && / || precedence
 func TestVerifWitness_D1(t *testing.T) {
 	verifWitnessSim("D1", "script S { if (flag(A) && flag(B) && flag(C) || flag(D)) { x } y }", false)
+}
+
+// D7: the operand token synthesised for an AutoVar condition / switch has no position: with line markers on, the
+// marker of the comparison names line 0 (parser obligations parseLeafBooleanExpression / parseSwitchStatement
+// ensures[C16:operand-token])
+func TestVerifWitness_D7(t *testing.T) {
+	one := 0
+	cfg := parser.CommandConfig{AutoVarCommands: map[string]parser.AutoVarCommand{
+		"checkitem": {VarName: "VAR_RESULT"}, "getpartysize": {VarNameArgPosition: &one}}}
+	src := "script S {\n  if (checkitem(ITEM_X) == 1) {\n    a\n  }\n  switch (checkitem(ITEM_Y)) {\n    case 1: b\n  }\n}\n"
+	p := parser.New(lexer.New(src), cfg, "", "", 0, nil)
+	prog, err := p.ParseProgram()
+	if err != nil {
+		fmt.Printf("WITNESS-PASSES D7 (did not parse: %v)\n", err)
+		return
+	}
+	out, err := New(prog, false, true, "file.pory").Emit()
+	if err != nil {
+		fmt.Printf("WITNESS-PASSES D7 (did not emit: %v)\n", err)
+		return
+	}
+	nlines := strings.Count(src, "\n")
+	bad := []string{}
+	for _, ln := range strings.Split(out, "\n") {
+		if strings.HasPrefix(ln, "# ") {
+			var n int
+			fmt.Sscanf(ln, "# %d", &n)
+			if n < 1 || n > nlines {
+				bad = append(bad, ln)
+			}
+		}
+	}
+	if len(bad) > 0 {
+		fmt.Printf("WITNESS-FAILS D7 markers outside 1..%d: %q\n", nlines, bad)
+		return
+	}
+	fmt.Printf("WITNESS-PASSES D7 all markers name a line in 1..%d\n", nlines)
 }
